@@ -55,9 +55,17 @@ fn struct_shape(k: &str, rng: &mut Rng) -> (String, usize, &'static str) {
 }
 
 /// an operand of kind `k`; class: 0 = leaf the exporter repeats, 1 = no effect but not a leaf, 2 = with an effect
+pub const OPERANDS: [u64; 3] = [6, 9, 22];
+
 fn operand(k: &str, class: u32, rng: &mut Rng) -> (String, &'static str) {
+    let n = OPERANDS[class.min(2) as usize];
+    let which = rng.below(n);
+    operand_at(k, class, which, rng)
+}
+
+fn operand_at(k: &str, class: u32, which: u64, rng: &mut Rng) -> (String, &'static str) {
     match class {
-        0 => match rng.below(6) {
+        0 => match which {
             0 => ("x".into(), "leaf:parameter"),
             1 => ("gk".into(), "leaf:static"),
             2 => ("lc".into(), "leaf:local"),
@@ -65,7 +73,7 @@ fn operand(k: &str, class: u32, rng: &mut Rng) -> (String, &'static str) {
             4 => (klit(rng, k), "leaf:literal"),
             _ => ("ck".into(), "leaf:constant"),
         },
-        1 => match rng.below(9) {
+        1 => match which {
             0 => ("arr[i & 3]".into(), "pure:element"),
             1 => ("arr[2]".into(), "pure:element-const"),
             2 => ("p.q".into(), "pure:member"),
@@ -76,7 +84,13 @@ fn operand(k: &str, class: u32, rng: &mut Rng) -> (String, &'static str) {
             7 => (format!("({})i", k), "pure:cast"),
             _ => ("varr[1].zy.x".into(), "pure:swizzle-chain"),
         },
-        _ => match rng.below(16) {
+        _ => match which {
+            16 => (format!("({})(i++)", k), "effect:cast-of-increment"),
+            17 => ("-(x++)".into(), "effect:unary-of-increment"),
+            18 => (format!("{}3(x++, y, y).x", k), "effect:swizzle-of-constructor-increment"),
+            19 => ("(b ? arr[next(4)] : y)".into(), "effect:ternary-index-call"),
+            20 => (format!("({})(({}2)bump(y)).y", k, k), "effect:cast-swizzle-cast-call"),
+            21 => ("(x++).x".into(), "effect:scalar-swizzle-increment"),
             0 => ("arr[(i++) & 3]".into(), "effect:index-increment"),
             1 => ("arr[next(4)]".into(), "effect:index-call"),
             2 => ("arr[i++]".into(), "effect:index-increment-unmasked"),
@@ -99,7 +113,15 @@ fn operand(k: &str, class: u32, rng: &mut Rng) -> (String, &'static str) {
 
 /// `(S)operand` in one of the statement positions; returns the source and a tag `d:cast:<shape>:<operand>`
 pub fn struct_cast(rng: &mut Rng) -> (String, String) {
-    let k = *rng.pick(&KINDS);
+    struct_cast_fixed(rng, None)
+}
+
+/// `fixed` = (kind, four-element struct instead of a one-element one, operand class, operand number)
+pub fn struct_cast_fixed(rng: &mut Rng, fixed: Option<(&'static str, bool, u32, u64)>) -> (String, String) {
+    let k = match fixed {
+        Some((k, ..)) => k,
+        None => *rng.pick(&KINDS),
+    };
     let (sdef, count, stag) = struct_shape(k, rng);
     // what the current exporter does: leaf → repeated; one element → anything goes; otherwise → UnsupportedCast
     let class = match rng.below(20) {
@@ -114,6 +136,17 @@ pub fn struct_cast(rng: &mut Rng) -> (String, String) {
         (sdef, count, stag)
     };
     let (e, etag) = operand(k, class, rng);
+    let (sdef, count, stag, class, e, etag) = match fixed {
+        Some((_, four, c, w)) => {
+            let (e, etag) = operand_at(k, c, w, rng);
+            if four {
+                (format!("struct S\n{{\n    {} a;\n    {} b;\n    {} c[2];\n}};\n", k, k, k), 4, "scalars+array", c, e, etag)
+            } else {
+                (format!("struct S\n{{\n    {} a;\n}};\n", k), 1, "one", c, e, etag)
+            }
+        }
+        None => (sdef, count, stag, class, e, etag),
+    };
     let mut out = preamble(k, rng);
     out.push_str(&format!("struct I1\n{{\n    {} m;\n}};\n", k));
     out.push_str(&sdef);
@@ -145,15 +178,34 @@ pub fn struct_cast(rng: &mut Rng) -> (String, String) {
 }
 
 /// an operand with an effect in a position the exporter emits once today
+pub const STATEMENTS: u64 = 24;
+const INT_OPS: [&str; 10] = ["+=", "-=", "*=", "/=", "%=", "&=", "|=", "^=", "<<=", ">>="];
+const FLOAT_OPS: [&str; 4] = ["+=", "-=", "*=", "/="];
+/// the statements that contain a compound assignment
+const COMPOUND: [u64; 5] = [5, 6, 7, 9, 22];
+
 pub fn effect_operand(rng: &mut Rng) -> (String, String) {
-    let k = *rng.pick(&KINDS);
+    effect_operand_fixed(rng, None)
+}
+
+/// `fixed` = (kind, statement number, compound operator)
+pub fn effect_operand_fixed(rng: &mut Rng, fixed: Option<(&'static str, u64, &'static str)>) -> (String, String) {
+    let k = match fixed {
+        Some((k, ..)) => k,
+        None => *rng.pick(&KINDS),
+    };
     let mut out = preamble(k, rng);
     out.push_str(&format!("struct M\n{{\n    {}3 v;\n    {} s;\n    {}3 sum()\n    {{\n        return v + s;\n    }}\n    void add({} d)\n    {{\n        s = s + d;\n    }}\n}};\n", k, k, k, k));
     out.push_str(&format!("void hio(inout {} a, out {} o, {} d)\n{{\n    o = a;\n    a = a + d;\n}}\n", k, k, k));
     let params = format!("{} x, {} y, {} arr[4], inout int i, int j, I2 parr[2], {}3 v, {}3 varr[2], M marr[2], bool b", k, k, k, k, k);
     out.push_str(&format!("{}3 fe({})\n{{\n    {}3 r = v;\n    {} lc = y;\n", k, params, k, k));
-    let aop = if k == "float" { *rng.pick(&["+=", "-=", "*=", "/="]) } else { *rng.pick(&["+=", "-=", "*=", "&=", "|=", "^=", "<<=", ">>=", "%="]) };
-    let (st, tag): (String, &str) = match rng.below(24) {
+    let aop = if k == "float" { *rng.pick(&FLOAT_OPS) } else { *rng.pick(&INT_OPS) };
+    let which = rng.below(STATEMENTS);
+    let (aop, which) = match fixed {
+        Some((_, w, op)) => (op, w),
+        None => (aop, which),
+    };
+    let (st, tag): (String, &str) = match which {
         0 => (format!("r = ({}3)(x++);", k), "splat-cast:increment"),
         1 => (format!("r = ({}3)bump(y);", k), "splat-cast:call"),
         2 => (format!("r = {}3(x++, y, bump(x));", k), "constructor:increment+call"),
@@ -182,9 +234,56 @@ pub fn effect_operand(rng: &mut Rng) -> (String, String) {
     };
     out.push_str(&format!("    {}\n", st));
     out.push_str(&format!("    return r + x + lc + ({})i;\n}}\n", k));
-    (out, format!("d:effect:{}", tag))
+    let optag = if COMPOUND.contains(&which) { format!(":{}", aop) } else { String::new() };
+    (out, format!("d:effect:{}{}", tag, optag))
 }
 
-pub fn dup_program(rng: &mut Rng) -> (String, String) {
+/// the enumerated part of the family: every compound operator at every place with an effect in the target, every other
+/// statement with every kind, every operand (leaf / pure / with an effect) below a cast to a one-element and to a
+/// four-element struct
+pub fn enumerated(idx: u64, rng: &mut Rng) -> Option<(String, String)> {
+    let mut n = idx;
+    // compound assignments
+    let per = (INT_OPS.len() + FLOAT_OPS.len()) as u64;
+    if n < per * COMPOUND.len() as u64 {
+        let (place, o) = (COMPOUND[(n / per) as usize], (n % per) as usize);
+        let (k, op) = if o < INT_OPS.len() { (if (o + (n / per) as usize) % 2 == 0 { "int" } else { "uint" }, INT_OPS[o]) } else { ("float", FLOAT_OPS[o - INT_OPS.len()]) };
+        return Some(effect_operand_fixed(rng, Some((k, place, op))));
+    }
+    n -= per * COMPOUND.len() as u64;
+    // the other statements, every kind
+    let others: Vec<u64> = (0..STATEMENTS).filter(|w| !COMPOUND.contains(w)).collect();
+    if n < others.len() as u64 * 3 {
+        let (w, k) = (others[(n / 3) as usize], KINDS[(n % 3) as usize]);
+        return Some(effect_operand_fixed(rng, Some((k, w, "+="))));
+    }
+    n -= others.len() as u64 * 3;
+    // struct casts: every operand × {one element, four elements}
+    let total: u64 = OPERANDS.iter().sum();
+    if n < total * 2 {
+        let four = n % 2 == 1;
+        let mut w = n / 2;
+        let mut class = 0;
+        while w >= OPERANDS[class as usize] {
+            w -= OPERANDS[class as usize];
+            class += 1;
+        }
+        let k = KINDS[((n / 2) % 3) as usize];
+        return Some(struct_cast_fixed(rng, Some((k, four, class, w))));
+    }
+    None
+}
+
+/// number of programs `enumerated` produces
+pub fn enumerated_len() -> u64 {
+    let per = (INT_OPS.len() + FLOAT_OPS.len()) as u64;
+    per * COMPOUND.len() as u64 + (STATEMENTS - COMPOUND.len() as u64) * 3 + OPERANDS.iter().sum::<u64>() * 2
+}
+
+/// the `idx`-th program of the family: the enumerated part first, then random ones
+pub fn dup_program(idx: u64, rng: &mut Rng) -> (String, String) {
+    if let Some(p) = enumerated(idx, rng) {
+        return p;
+    }
     if rng.chance(3, 5) { struct_cast(rng) } else { effect_operand(rng) }
 }
